@@ -18,5 +18,11 @@ class C03(TieCheck):
         "route listings in the model (countRoutes, getRouteConflict) use depth fuel 200; the refinement theorem assumes the tree is not deeper than the fuel",
     ]
 
+    def extra(self, tier, seed, work, coverage):
+        """"The state a request is being served from is frozen" also means ONE load of the published tree
+        per request: tie A of the transaction protocol (regenerated synchronisation skeleton)."""
+        import lib
+        return lib.sync_skeleton_extra(coverage)
+
 
 CHECK = C03()
